@@ -95,6 +95,9 @@ def case_adjoint(dim, kernel, dtype, dx, ncomp, mset, seed):
             trans += 1
             Smat[:, :, c, m] = eul.reshape(ncomp, ncell)
     scale = 1.0  # entries of I are O(1) (weights * dx^d)
+    if not (np.all(np.isfinite(Smat)) and np.all(np.isfinite(Imat))):
+        fails.append(Fail(f"{tag}:nonfinite", "non-finite entries in the interpolation / spreading matrices", dim=dim, set=mset))
+        return CaseResult(fails=fails, states=1, transitions=trans, traces=trans, outcome="nonfinite")
     tol = 16 * eps * scale
     dev = np.abs(Smat * vol - np.transpose(Imat, (2, 3, 0, 1))).max()
     if dev > tol:
@@ -183,7 +186,7 @@ def case_accumulate(dim, kernel, dtype, dx, ncomp, depth):
     def check(s, hist, ev, obs):
         fl = []
         tol = 8 * eps * (s["mag"] + 1e-300) * (len(hist) + 2)
-        bad = np.abs(s["field"].astype(np.float64) - s["expected"]) > tol
+        bad = ~(np.abs(s["field"].astype(np.float64) - s["expected"]) <= tol)
         if np.any(bad):
             fl.append(Fail(f"{kernel}:ncomp={ncomp}:accumulation", "spreading does not accumulate: field != previous field + spread contribution", history=list(hist) + [ev], dim=dim, cells=int(bad.sum())))
         if isinstance(obs, tuple) and not obs[1]:
